@@ -335,11 +335,27 @@ def big_states():
             d = np.array(vals, dtype=np.int64)
             for c in (0, int(d[-1]), k + 3):
                 out.append(("1d", d, c))
-    for (n, cols, k) in ((10, 3, 5), (18, 5, 6), (40, 4, 7)):
+    # many distinct values (17-40), long sparse arrays (100-300 rows, few uncommon cells)
+    for n, k in ((19, 17), (48, 24), (90, 40)):
+        d = np.array([(i * 7 + (next(g) % 3)) % k for i in range(n)], dtype=np.int64)
+        for c in (0, k // 2, k + 1):
+            out.append(("1d", d, c))
+    for n in (100, 300):
+        d = np.zeros(n, dtype=np.int64)
+        for _ in range(5):
+            d[next(g) % n] = 1 + next(g) % 6
+        for c in (0, 3):
+            out.append(("1d", d, c))
+    for (n, cols, k) in ((10, 3, 5), (18, 5, 6), (40, 4, 7), (11, 8, 5), (6, 10, 6), (70, 2, 4)):
         cells = [(0 if next(g) % 10 < 6 else next(g) % k) for _ in range(n * cols)]
         d = np.array(cells, dtype=np.int64).reshape(n, cols)
         d[:, cols - 1] = 0  # a column holding only one value
         for c in (0, 2, k + 1):
+            out.append(("2d", d, c))
+    # wide 2-D states without a dominant value (32+ entries; the most frequent value is decided by a narrow margin)
+    for (n, cols, k) in ((6, 8, 5), (12, 9, 4), (5, 12, 6)):
+        d = np.array([[(r + 2 * cc + (next(g) % 2)) % k for cc in range(cols)] for r in range(n)], dtype=np.int64)
+        for c in (0, 1, k):
             out.append(("2d", d, c))
     return out
 
@@ -393,6 +409,17 @@ def do_big(fam, d, c, sc, st):
         _try(lambda: x.update(ent))
         _try(lambda: x.shift_common())
         st.call(True, {"op": "update-history(big)"})
+    # sparse updates: one or two cells of a large index (set to the common value, to a listed value, to a new value)
+    for cell in (cells[0], cells[len(cells) // 2], cells[-1]):
+        for nv in (c, vals[-1], 9):
+            x = mk(d, c)
+            ent = {(nv,) + tuple(cell[1:]): np.array([cell[0]], dtype=U32)}
+            _try(lambda: x.update(ent))
+            other = cells[(len(cells) // 3)]
+            if other != cell:
+                ent2 = {(c,) + tuple(other[1:]): np.array([other[0]], dtype=U32)}
+                _try(lambda: x.update(ent2))
+            st.call(True, {"op": "sparse-update(big)"})
     if d.ndim == 2:
         C = d.shape[1]
         for o in (None, 0, C - 1, list(range(C)), list(range(C - 1, -1, -1)), [C - 1, 0], []):
@@ -410,6 +437,16 @@ def do_big(fam, d, c, sc, st):
                 x = mk(d, c)
                 _try(lambda: x.collapsed(list(p)))
                 st.call(True)
+    # histories in which the most frequent value changes: append blocks holding a single uncommon value
+    for v in vals[:3]:
+        x = mk(d, c)
+        blk = np.full((max(2, n // 2),) + d.shape[1:], v, dtype=np.int64)
+        _try(lambda: x.append(mk(blk, v)))
+        _try(lambda: x.append(mk(blk, c)))
+        _try(lambda: x.shift_common())
+        m2 = np.arange(x.shape[0]) % 3 != 0
+        _try(lambda: x.filtered(m2, int(m2.sum())))
+        st.call(True, {"op": "mode-changing-history(big)"})
     # binary operations and a history of several mutating operations on one object
     e = d[::-1].copy()
     for k in (c, vals[0], 77):
